@@ -133,6 +133,8 @@ def roots(tier, seed):
                 case["tag"].update(term="inconsistent")
                 case["explore"] = 0
                 out.append(case)
+    from .. import cover
+    out += cover.roots_for(tier, explore_thorough=1)
     return alpha.permute(out, seed)
 
 
